@@ -57,3 +57,35 @@ HX void hx_textblock(uint64_t len, uint64_t indent, uint64_t width, uint64_t fir
    vs_assert(out_lines >= in_newline_groups, "every input line starts a new output line");
    vs_note("outlen", out.size());
 }
+
+// structured texts: an optional leading "- " (list line), nw words of symbolic length 1..3, single spaces,
+// an optional forced-break token "nn" after word `nnpos` (0 = none); checks as above.
+HX void hx_textblock_words(uint64_t nw, uint64_t dash_nn, uint64_t indent, uint64_t width) {
+   bool dash = dash_nn & 1; unsigned nnpos = (unsigned) (dash_nn >> 1);
+   std::string text = dash ? "-" : "";
+   for (uint64_t i = 0; i < nw; ++i) {
+      unsigned len = vs_u8("len"); vs_assume(len >= 1 && len <= 3);
+      if (!text.empty()) text += ' ';
+      text += std::string(len, (char) ('a' + i));
+      if (nnpos == i + 1) text += " nn";
+   }
+   std::ostringstream oss;
+   TextBlock tb((int) indent, (int) width, true);
+   tb.format(oss, text);
+   const std::string out = oss.str();
+   auto win = words_of(text, true), wout = words_of(out, false);
+   vs_assert(win.size() == wout.size(), "no word lost or duplicated");
+   if (win.size() == wout.size())
+      for (size_t i = 0; i < win.size(); ++i) vs_assert(win[i] == wout[i], "words keep their order and are not split");
+   size_t start = 0;
+   while (!out.empty() && start <= out.size()) {
+      size_t end = out.find('\n', start); if (end == std::string::npos) end = out.size();
+      std::string line = out.substr(start, end - start);
+      vs_assert(line.size() >= indent, "every line starts with the indentation");
+      for (size_t i = 0; i < indent && i < line.size(); ++i) vs_assert(line[i] == ' ', "every line starts with the indentation");
+      vs_assert(line.size() <= width || words_of(line, false).size() <= 1, "no line longer than the width unless it holds a single word");
+      start = end + 1;
+      if (end == out.size()) break;
+   }
+   vs_note("outlen", out.size());
+}
